@@ -711,6 +711,7 @@ pub fn stale(seed: u64, bases: &str, count: u64, max_ops: u64, outdir: &str, lis
     let mut list = String::new();
     let (mut histories, mut calls, mut stale_calls) = (0u64, 0u64, 0u64);
     let mut reported = 0;
+    let mut c02_reported = 0;
     for k in 0..count {
         let b = rng.pick(&images).clone();
         let shared = SharedFile::new(b.clone());
@@ -765,6 +766,15 @@ pub fn stale(seed: u64, bases: &str, count: u64, max_ops: u64, outdir: &str, lis
         }
         let _ = real.exec("flush");
         let bytes = shared.snapshot();
+        // C02 at this boundary (no handle is left): what the live object reports is what reopening the bytes reports
+        let live = catch(|| real.dump()).unwrap_or_else(|_| "panic".into());
+        let reopened = catch(|| CompoundFile::open(std::io::Cursor::new(bytes.clone())).map(crate::api::dump_of).unwrap_or_else(|e| format!("err {}", err_kind(&e)))).unwrap_or_else(|_| "panic".into());
+        if live != reopened && c02_reported < 3 {
+            c02_reported += 1;
+            std::fs::write(format!("{}/S{}.cfb", outdir, k), &bytes).unwrap();
+            std::fs::write(format!("{}/S{}.history", outdir, k), history.join("\n") + "\n").unwrap();
+            println!("ORACLE C02 stale-handles case {} (seed {}): after a history in which handles outlive their streams (all handles dropped, flushed) the live object and the reopened bytes differ: live {} / reopened {} [image {}/S{}.cfb history {}/S{}.history]", k, seed, short(&live), short(&reopened), outdir, k, outdir, k);
+        }
         let path = format!("{}/S{}.cfb", outdir, k);
         std::fs::write(&path, &bytes).unwrap();
         std::fs::write(format!("{}/S{}.history", outdir, k), history.join("\n") + "\n").unwrap();
